@@ -151,6 +151,9 @@ class Spec:
 # ('dset', path, name, wf, empty, replace) setProperty / item assignment   ('dsetobj', path, name) setProperty(Property)
 # ('ddel', path, name) removeProperty / del style[name]
 # ('dshareprop', path, src, i) rule.style.setProperty(<i-th Property object of the block of the rule at src>)
+# edits around the DOM methods (Model/SheetRaw.lean): ('rawdel', path, i) del sheet.cssRules[i] (path ()) / del
+# rule.cssRules[i]; ('rawins', spec, i) sheet.cssRules.insert(i, rule); ('reins', path, idx|None)
+# sheet.insertRule(<the rule object at path>, idx) — the last operation of a history
 DNAMES = ['top', 'color', 'right', 'margin-top']      # the names the operations use; the names of the declarations the
                                                       # generated rules are made with (left, margin, font-family) are not among them
 DOPS = ('dnew', 'dshare', 'dtext', 'dset', 'dsetobj', 'ddel', 'dshareprop')
@@ -224,6 +227,10 @@ def ops_from_json(data):
             out.append((t, tuple(op[1]), tuple(op[2])))
         elif t == 'dshareprop':
             out.append((t, tuple(op[1]), tuple(op[2]), op[3]))
+        elif t in ('rawdel', 'reins'):
+            out.append((t, tuple(op[1]), op[2]))
+        elif t == 'rawins':
+            out.append((t, Spec.from_json(op[1]), op[2]))
         elif t in ('dset', 'dsetobj', 'ddel'):
             out.append((t, tuple(op[1])) + tuple(op[2:]))
         elif t == 'nbroken':
@@ -296,6 +303,12 @@ def op_line(op):
         return 'ddel %s %s' % (path(op[1]), enc(op[2]))
     if t == 'dshareprop':
         return 'dshareprop %s %s %d' % (path(op[1]), path(op[2]), op[3])
+    if t == 'rawdel':
+        return 'rawdel %s %d' % (path(op[1]) if op[1] else '-', op[2])
+    if t == 'rawins':
+        return 'rawins %s %d' % (op[1].proto(), op[2])
+    if t == 'reins':
+        return 'reins %s %s' % (path(op[1]), idx(op[2]))
     if t == 'decl':
         return None         # not an operation of the model (kept for the witnesses of the fixed findings)
     raise ValueError(op)
@@ -555,6 +568,18 @@ class Walker:
             return ('nsdel', r.choice(self.PRE))
         if x < 0.755:
             return ('mode', int(r.random() < 0.6))
+        if x < 0.766 and n:
+            # edits around the DOM methods (known finding C09-raw-list-edit)
+            y = r.random()
+            if y < 0.5:
+                return ('rawdel', (), r.randint(-n, n - 1))
+            if y < 0.7 and conts:
+                cs = [(p, c) for p, c in conts if len(c.cssRules)]
+                if cs:
+                    p, c = r.choice(cs)
+                    return ('rawdel', p, r.randint(-len(c.cssRules), len(c.cssRules) - 1))
+            return ('rawins', self.spec(r.choice(['style', 'import', 'comment', 'variables', 'fontface', 'charset', 'unknown']),
+                                        declared), r.randint(-n - 1, n + 1))
         if x < 0.83:
             styled = [p for p, rule, _ in st.walk() if rule.typeString in STYLED]
             if styled:
@@ -616,6 +641,8 @@ class HistState:
         self.oprops = {}          # id -> (property, type of the rule) (oracle's registry)
         self.blocks = {}          # id -> every declaration block seen as the style of a rule (dump's registry)
         self.bprops = {}          # id -> every property seen in such a block
+        self.raw_objs = set()         # ids of rule objects removed / inserted by a raw list edit
+        self.reinserted = set()       # ids of rule objects handed to insertRule while contained
         self.shared_blocks = set()    # ids of block objects handed to a second rule (dshare)
         self.shared_props = set()     # ids of Property objects handed to a second block (dshareprop)
         self.taint_obj = {}       # id(obj) -> finding id (clause-specific: parent links / nested kind)
@@ -719,6 +746,22 @@ class HistState:
             elif t == 'mode':
                 cssutils.log.raiseExceptions = bool(op[1])
                 r = None
+            elif t == 'rawdel':
+                rules = self.sheet.cssRules if not op[1] else self.at(op[1]).cssRules
+                o = rules[op[2]]
+                self.raw_objs.add(id(o))                  # region of C09-raw-list-edit
+                del rules[op[2]]
+                r = None
+            elif t == 'rawins':
+                o = op[1].build(self.tracked)
+                self.raw_objs.add(id(o))
+                self.sheet.cssRules.insert(op[2], o)
+                r = None
+            elif t == 'reins':
+                o = self.at(op[1])
+                self.last_arg = o
+                self.reinserted.add(id(o))                # region of C09-rule-reinserted
+                r = self.sheet.insertRule(o, op[2])
             elif t in DOPS:
                 rule = self.at(op[1])
                 if rule.typeString not in STYLED:
@@ -817,7 +860,7 @@ class HistState:
         except AttributeError as e:
             return 'ERR AttributeError'
         except IndexError:
-            if t in ('nins', 'ninsl', 'ndel', 'ntext', 'decl') + DOPS:
+            if t in ('nins', 'ninsl', 'ndel', 'ntext', 'decl', 'rawdel', 'reins') + DOPS:
                 return 'ERR NoSuchPath'     # the history addresses a nested list that is not there (any more)
             raise
         if r is None:
@@ -1017,6 +1060,10 @@ class Env:
                     lines.append(op_line(op))
                     expect.append(out + ' | ' + d)
                 self.oracle.after(st, op, out, pre, ops, raising)
+                if op[0] in ('rawins', 'reins'):
+                    # the model follows the code from here on only while the rules of the sheet's list name the sheet
+                    # (the two put-back paths of insertRule adopt every rule of the old list): the walk ends
+                    break
                 if i % 10 == 9:
                     self.oracle.end(st, ops, raising)
             b = self.oracle.end(st, ops, raising)
